@@ -2,6 +2,8 @@
    back to the normalised record (names without their empty labels), which compiles to the
    same keys and values and prints the same text.  Used by Proofs/Text.v (C09). *)
 From DnsV Require Import Model.Text Proofs.Quote Proofs.TextBase Proofs.TextNames.
+(* C18 (not imported: its files reuse names of Model/Text.v) *)
+From DnsV Require Base.Text Model.Svcb Spec.SvcbWire Proofs.Svcb.
 From Coq Require Import ZifyN ZifyNat ZifyBool.
 Open Scope N_scope.
 
@@ -28,6 +30,23 @@ Variable serial : N.
 Variable Hip_rt : forall a, wf_bytes a -> length a = 16%nat -> o_parse_ip o (o_print_ip o a) = Some a.
 Variable Hip_nil : o_parse_ip o [] = None.
 Variable Hip_nosep : forall a, contains 44 (o_print_ip o a) = false.
+
+(* library behaviour the B/H parameter list relies on (the premises of C18_text_roundtrip_outside_finding):
+   ParseIP yields 16 bytes; base64 Decode yields bytes; a printed 4-byte address parses to its v4-in-v6
+   form; a printed 16-byte address outside ::ffff:0:0/96 holds a ':'; printed addresses hold no
+   ';' '|' or double quote; base64 Decode inverts Encode, whose text holds no ';' or double quote *)
+Variable Hs_parse : forall s a, o_parse_ip o s = Some a -> length a = 16%nat /\ wf_bytes a.
+Variable Hs_b64 : forall s x, o_b64_dec o s = Some x -> wf_bytes x.
+Variable Hs_p4 : forall a, length a = 4%nat -> wf_bytes a ->
+  o_parse_ip o (o_print_ip o a) = Some (Base.Text.v4_prefix ++ a).
+Variable Hs_p6 : forall a, length a = 16%nat -> wf_bytes a -> Base.Text.ip_to4 a = None ->
+  Base.Text.has_byte 58 (o_print_ip o a) = true.
+Variable Hs_pc : forall a, (length a = 4%nat \/ length a = 16%nat) -> wf_bytes a ->
+  Base.Text.has_byte 59 (o_print_ip o a) = false /\ Base.Text.has_byte 124 (o_print_ip o a) = false
+  /\ Base.Text.has_byte 34 (o_print_ip o a) = false.
+Variable Hs_be : forall x, wf_bytes x ->
+  o_b64_dec o (o_b64_enc o x) = Some x /\ Base.Text.has_byte 59 (o_b64_enc o x) = false
+  /\ Base.Text.has_byte 34 (o_b64_enc o x) = false.
 
 Let pr := o_isprint o.
 
@@ -104,6 +123,7 @@ Definition norm (r : record) : record :=
   | RCsmap dom lmap => RCsmap (nn dom) lmap
   | RRangePoint lmap ip ml null locid =>
       RRangePoint lmap ip (if null then 0 else ml) null (if null then [0; 0] else locid)
+  | RSvcb h dom wild tgt ttl lo prio ps => RSvcb h (nn dom) wild (nn tgt) ttl lo prio ps
   end.
 
 Ltac split_wf H :=
@@ -293,6 +313,43 @@ Proof using o serial Hip_rt Hip_nosep.
     + rewrite (getuint_print max8) by apply mod_le8.
       rewrite ml_rt by assumption. reflexivity.
     + rewrite (getuint_print max8) by (apply lt_le8; assumption). reflexivity.
+Qed.
+
+(* B / H.  The parameter list: C18 - an accepted list that declares no v4-mapped ipv6hint prints to a
+   text that FromText reads back to the same list *)
+Lemma svcb_params_roundtrip : forall ps,
+  (exists t, Model.Svcb.from_text (sorc o) t = Ok ps) -> f8_params ps = false ->
+  exists s, Model.Svcb.to_text (sorc o) ps = Ok s /\ Model.Svcb.from_text (sorc o) s = Ok ps.
+Proof using o Hip_rt Hs_parse Hs_b64 Hs_p4 Hs_p6 Hs_pc Hs_be.
+  intros ps [t Ht] F.
+  destruct (Proofs.Svcb.decodes_to_declared (sorc o) Hs_parse Hs_b64 t ps Ht) as (d & D1 & D2).
+  refine (Proofs.Svcb.text_roundtrip_outside_finding (sorc o) Hs_parse Hs_b64 Hs_p4 _ Hs_pc Hs_be t ps d Ht D1 _).
+  - intros a L W M. split; [apply Hip_rt; assumption|apply Hs_p6; assumption].
+  - intros a Ia. unfold f8_params in F. rewrite D2 in F.
+    apply Forall_forall. intros x Ix.
+    destruct (Base.Text.ip_to4 x) eqn:E; [|reflexivity]. exfalso.
+    assert (T : existsb (fun v => match v with Spec.SvcbWire.VIp6 a => existsb mapped16 a | _ => false end) d = true).
+    { apply existsb_exists. exists (Spec.SvcbWire.VIp6 a). split; [exact Ia|].
+      apply existsb_exists. exists x. split; [exact Ix|]. unfold mapped16. rewrite E. reflexivity. }
+    rewrite T in F. discriminate F.
+Qed.
+
+Lemma parse_svcb : forall h dom wild tgt ttl lo prio ps,
+  wf_recordb o (RSvcb h dom wild tgt ttl lo prio ps) = true ->
+  svcb_accepted o (RSvcb h dom wild tgt ttl lo prio ps) -> f8_params ps = false ->
+  parse_line o serial (marshal o (RSvcb h dom wild tgt ttl lo prio ps)) =
+  Ok (norm (RSvcb h dom wild tgt ttl lo prio ps)).
+Proof using o serial Hip_rt Hip_nil Hip_nosep Hs_parse Hs_b64 Hs_p4 Hs_p6 Hs_pc Hs_be.
+  intros h dom wild tgt ttl lo prio ps H A F. cbn [svcb_accepted] in A.
+  destruct (svcb_params_roundtrip ps A F) as (s & T1 & T2).
+  cbn [wf_recordb] in H. rewrite T1 in H. split_wf H. apply negb_true_iff in W.
+  assert (Pt : params_text o ps = s) by (unfold params_text; rewrite T1; reflexivity).
+  assert (Hc : nocomma (params_text o ps)) by (rewrite Pt; exact W).
+  assert (Gt : getdom (putdomtext o tgt) = (nn tgt, false)) by exact (getdom_wtext false tgt W4 W3).
+  destruct h; open_line;
+    rewrite getdom_wtext by assumption; rewrite Gt; rewrite !getuint32 by assumption;
+    rewrite getloc_loc by assumption; rewrite getuint16 by assumption;
+    unfold svcb_params; rewrite Pt, T2; reflexivity.
 Qed.
 
 (* ------------------------------------------------------------------ convert (norm r) = convert r *)
